@@ -8,6 +8,7 @@ INVARIANT G_C17_OpensCreated
 INVARIANT G_C17_Identity
 INVARIANT G_C17_CachedNotOpened
 INVARIANT G_C17_CacheSame
+INVARIANT G_C17_CacheKept
 INVARIANT G_C18_CleanRepos
 INVARIANT G_C18_RepairedReload
 INVARIANT G_C27_Reject
